@@ -274,6 +274,10 @@ func (r *Replica) ExecBlockAt(h uint64, txs []pb.Transaction, ts int64, local []
 			if err != nil {
 				return res, fmt.Errorf("receipt of tx %s missing: %v", tx.GetHash().String(), err)
 			}
+			// the lookup by transaction hash must answer with that transaction's receipt (C09)
+			if rc == nil || rc.TxHash == nil || rc.TxHash.String() != tx.GetHash().String() {
+				return res, fmt.Errorf("index:receipt-wrong-tx: block %d: GetReceipt(%s) right after the block was executed returns the receipt of another transaction", h, tx.GetHash().String())
+			}
 			res.Receipts = append(res.Receipts, rc)
 		}
 		return res, nil
